@@ -2258,3 +2258,113 @@ def strings_TrimLeft(ex, st, args, ctx):
 
 
 BASE.update({'encoding/hex.EncodeToString': hex_EncodeToString, 'strings.TrimLeft': strings_TrimLeft})
+
+
+# ------------------------------------------------------------------------------------------ sync.WaitGroup, sync/atomic values, http.Server shutdown hooks
+def _wg_key(p):
+    return ('wg', p.obj, p.path)
+
+
+def wg_Add(ex, st, args, ctx):
+    used('sync.WaitGroup: Wait returns at an instant at which the counter (adds so far minus dones so far) is zero')
+    n = conc(args[1])
+    if n is None:
+        raise Unsupported('WaitGroup.Add with a symbolic delta')
+    cev(st, 'wg_add', _wg_key(args[0]), n, pos=ctx['pos'])
+    return None
+
+
+def wg_Done(ex, st, args, ctx):
+    cev(st, 'wg_add', _wg_key(args[0]), -1, pos=ctx['pos'])
+    return None
+
+
+def wg_Wait(ex, st, args, ctx):
+    cev(st, 'wg_wait', _wg_key(args[0]), pos=ctx['pos'])
+    return None
+
+
+def _atomic_field(ex, st, p):
+    v = ex.load(st, p)
+    if not isinstance(v, Struct):
+        raise Unsupported('atomic value of unexpected shape %r' % (v,))
+    # the payload is the last field (noCopy / alignment markers come first)
+    return Ptr(p.obj, p.path + (len(v.f) - 1,)), v.f[-1]
+
+
+def atomic_Load(ex, st, args, ctx):
+    used('sync/atomic typed values: Load/Store/Add/Swap/CompareAndSwap are single reads/writes of the payload (no data race by definition)')
+    fp, cur = _atomic_field(ex, st, args[0])
+    if st.obj_epoch.get(fp.obj, 0) < st.epoch:
+        st.events.append(('atomic_read', fp.obj, fp.path, ctx['pos']))
+    return cur if not ctx['name'].startswith('(*sync/atomic.Bool)') else z3.simplify(cur != 0)
+
+
+def atomic_Store(ex, st, args, ctx):
+    fp, cur = _atomic_field(ex, st, args[0])
+    v = args[1]
+    if z3.is_bool(v):
+        v = z3.If(v, z3.BitVecVal(1, cur.size()), z3.BitVecVal(0, cur.size()))
+    if st.obj_epoch.get(fp.obj, 0) < st.epoch:
+        st.events.append(('atomic_write', fp.obj, fp.path, ctx['pos']))
+    o = st.heap[fp.obj]
+
+    def upd(val, path):
+        if not path:
+            return z3.simplify(v)
+        k = path[0]
+        if isinstance(val, Struct):
+            f = list(val.f)
+            f[k] = upd(f[k], path[1:])
+            return Struct(f)
+        e = list(val.e)
+        e[k] = upd(e[k], path[1:])
+        return Array(e)
+    st.heap[fp.obj] = upd(o, fp.path)
+    return None
+
+
+def atomic_Add(ex, st, args, ctx):
+    fp, cur = _atomic_field(ex, st, args[0])
+    new = z3.simplify(cur + args[1])
+    atomic_Store(ex, st, [args[0], new], ctx)
+    return new
+
+
+def atomic_Swap(ex, st, args, ctx):
+    old = atomic_Load(ex, st, args, ctx)
+    atomic_Store(ex, st, args, ctx)
+    return old
+
+
+def http_RegisterOnShutdown(ex, st, args, ctx):
+    used('(*http.Server).RegisterOnShutdown: the function runs in its own goroutine once Shutdown has begun (modelled as a goroutine that may start any time after registration: a superset of the real schedules)')
+    hooks = list(st.heap.get(('shutdown_hooks',), ()))
+    hooks.append(args[1])
+    st.heap[('shutdown_hooks',)] = tuple(hooks)
+    if isinstance(args[1], Func):
+        go_stmt(ex, st, ('value', args[1]), [], {'pos': ctx['pos']})
+    return None
+
+
+_AT = ['Bool', 'Int32', 'Int64', 'Uint32', 'Uint64']
+BASE.update({'(*sync.WaitGroup).Add': wg_Add, '(*sync.WaitGroup).Done': wg_Done, '(*sync.WaitGroup).Wait': wg_Wait,
+             '(*net/http.Server).RegisterOnShutdown': http_RegisterOnShutdown})
+for _t in _AT:
+    BASE.update({'(*sync/atomic.%s).Load' % _t: atomic_Load, '(*sync/atomic.%s).Store' % _t: atomic_Store, '(*sync/atomic.%s).Swap' % _t: atomic_Swap})
+    if _t != 'Bool':
+        BASE['(*sync/atomic.%s).Add' % _t] = atomic_Add
+
+
+def i_run_shutdown_hooks(ex, st, args, ctx):
+    """run the functions registered with RegisterOnShutdown (the stop was requested while this request was already accepted)"""
+    hooks = st.heap.get(('shutdown_hooks',), ())
+    st.events.append(('tag', 'shutdown_hooks_ran'))
+    if not hooks:
+        return None
+    if len(hooks) > 1:
+        raise Unsupported('more than one shutdown hook')
+    return ('tailcallv', hooks[0], [])
+
+
+INTRINSICS.update({'verifRunShutdownHooks': i_run_shutdown_hooks})
